@@ -53,21 +53,36 @@ GRAD_RATIO = 1e-3  # |grad L|(truth) <= GRAD_RATIO * |grad L|(perturbed), l2 los
 VISIBLE = 1e3  # the reference loss at a perturbed point must exceed VISIBLE * tol to be asserted on
 
 
-def truth_tol(loss_type, J, npix, imean, peak_ratio=1.0):
+def truth_tol(loss_type, J, npix, imean, peak_ratio=1.0, phi=0.0):
     """Upper bound for the full-scan-scaled loss at the ground truth.
 
     amplitude losses also carry the documented sqrt(I + 1e-9) regulariser: per pixel
-    (sqrt(I + e) - sqrt(I))^2 <= e and sqrt(I + e) - sqrt(I) <= sqrt(e), e = 1e-9 (exact bounds, x2)."""
+    (sqrt(I + e) - sqrt(I))^2 <= e and sqrt(I + e) - sqrt(I) <= sqrt(e), e = 1e-9 (exact bounds, x2).
+
+    phi = largest phase (rad) carried by the Fresnel propagators, summed over the slice gaps.  The library
+    evaluates that phase in float32, so every propagated amplitude is off by up to ~2 * eps32 * phi (relative):
+    the round-off terms grow by f = 1 + phi / 10 (l1) or f^2 (l2).  Measured: phi = 72 rad gives an
+    l2_amplitude truth loss of 4.7e-12 * J (0.12 of the phi-free tolerance, the largest ratio seen)."""
     e = sim.SQRT_EPS
+    f = 1.0 + phi / 10.0
     if loss_type == "l2_amplitude":
-        return J * (K_L2_AMP + 2.0 * npix * e / imean)
+        return J * (K_L2_AMP * f * f + 2.0 * npix * e / imean)
     if loss_type == "l1_amplitude":
-        return J * (K_L1_AMP * math.sqrt(npix / imean) + 2.0 * npix * math.sqrt(e) / imean)
+        return J * (K_L1_AMP * f * math.sqrt(npix / imean) + 2.0 * npix * math.sqrt(e) / imean)
     if loss_type == "l2_intensity":
-        return J * K_L2_INT * imean * peak_ratio
+        return J * K_L2_INT * f * f * imean * peak_ratio
     if loss_type == "l1_intensity":
-        return J * K_L1_INT
+        return J * K_L1_INT * f
     raise ValueError(loss_type)
+
+
+def propagator_phase(case, sampling):
+    """Sum over the slice gaps of the largest Fresnel phase pi * lambda * dz * |k|^2_max (rad)."""
+    if int(case["S"]) < 2:
+        return 0.0
+    lam = sim.wavelength_angstrom(float(case["energy"]))
+    k2 = float(np.sum((0.5 / np.asarray(sampling, dtype=np.float64)) ** 2))
+    return float(sum(math.pi * lam * float(dz) * k2 for dz in case["thick"]))
 
 
 STATS = {}
@@ -305,7 +320,10 @@ def check(ctx, case):
 
     batches = _partition(case, J)
     want_grad = lt.startswith("l2")
-    tol = truth_tol(lt, J, npix, imean, peak_ratio)
+    phi = propagator_phase(case, samp)
+    tol = truth_tol(lt, J, npix, imean, peak_ratio, phi)
+    fphi = 1.0 + phi / 10.0  # float32 evaluation of the propagator phase, see truth_tol
+    _stat("propagator phase (rad)", phi)
     full = np.arange(J)
 
     # 3a. ground truth
@@ -341,9 +359,9 @@ def check(ctx, case):
         if not visible:
             ctx.count("perturbed_%s_not_visible_in_reference" % name)
             continue
-        _stat("|lib - ref| / ref at perturbed %s [%s]" % (name, lt), abs(L1 - Lref) / Lref)
+        _stat("|lib - ref| / ref / (1 + phi/10) at perturbed %s [%s]" % (name, lt), abs(L1 - Lref) / Lref / fphi)
         _stat("truth loss / perturbed-%s loss" % name, L0 / L1 if L1 > 0 else float("inf"))
-        if abs(L1 - Lref) > REL_REF * Lref + tol:
+        if abs(L1 - Lref) > REL_REF * fphi * Lref + tol:
             _fail(
                 case,
                 "%s at the perturbed %s is %.6e, its definition evaluated on the reference simulation gives %.6e (%s)"
@@ -358,7 +376,7 @@ def check(ctx, case):
                 _fail(case, "batch-fraction weighted sum of the batch losses %.6e != full-scan loss %.6e" % (wsum, L1))
             for b, v in zip(bt, L1b):
                 vref = sim.loss(I_ref, meas, b, lt, J, imean)
-                if abs(v - vref) > REL_REF * max(vref, Lref / len(bt)) + tol:
+                if abs(v - vref) > REL_REF * fphi * max(vref, Lref / len(bt)) + tol:
                     _fail(
                         case,
                         "%s of batch %s (size %d of %d) at the perturbed object is %.6e, definition on the reference "
@@ -368,8 +386,8 @@ def check(ctx, case):
             g0v, g1v = (g0_obj, g1_obj) if name == "object" else (g0_probe, g1_probe)
             if not (g1v > 0 and np.isfinite(g1v) and np.isfinite(g0v)):
                 _fail(case, "gradient w.r.t. the %s at the perturbed %s is %r" % (name, name, g1v))
-            _stat("|grad %s|(truth) / |grad|(perturbed) [%s]" % (name, lt), g0v / g1v)
-            if g0v > GRAD_RATIO * g1v:
+            _stat("|grad %s|(truth) / |grad|(perturbed) / (1 + phi/10) [%s]" % (name, lt), g0v / g1v / fphi)
+            if g0v > GRAD_RATIO * fphi * g1v:
                 _fail(
                     case,
                     "ground truth is not a stationary point of %s: |dL/d%s| = %.3e at the truth, %.3e at the perturbed %s (%s)"
@@ -379,8 +397,12 @@ def check(ctx, case):
 
 
 def search(ctx):
-    even_only = False
+    # quick: 4 workers x 300 cases (~50-80 s wall on a shared machine, ~0.07-0.15 s per case);
+    # thorough: 16 workers x 3000.  No shrink phase: a failing case is already a small JSON description.
+    odd_open = _open(ctx, KEY_ODD)
     n = ctx.n(300, 3000)
-    core.run_given(ctx, "c02", cases(even_only=even_only), lambda c: check(ctx, c), n, shrink=False)
+    core.run_given(ctx, "c02", cases(even_only=False), lambda c: check(ctx, c), n, shrink=False)
+    if odd_open:
+        ctx.extra["note"] = "odd ROI with no_shift skipped (open finding %s)" % KEY_ODD
     for k, v in STATS.items():
         ctx.extra["max " + k] = float("%.4g" % v)
